@@ -35,6 +35,7 @@ THEOREMS = [
     "C08_keep_own_values",
     "C08_keep_own_unedited",
     "C08_keep_own_idempotent",
+    "C08_rebuild_idempotent_refuted",
     "C08_expand",
     "C08_expand_zero_count_refuted",
     "C08_recompress",
@@ -140,7 +141,10 @@ def ser_shortcut(sc, sid, idof):
     if kind == "lin" and hasattr(sc, "_begin"):
         d["sBegin"], d["sEnd"], d["sSpacing"] = rat(sc._begin), rat(sc._end), rat(sc._spacing)
     if kind == "log" and hasattr(sc, "_begin"):
-        d["lBegin"], d["lEnd"] = rat(10**sc._begin), rat(10**sc._end)
+        try:
+            d["lBegin"], d["lEnd"] = rat(10**sc._begin), rat(10**sc._end)
+        except (OverflowError, ValueError) as e:
+            raise ImplRaised(type(e).__name__)
         d["lN"] = max(0, round((sc._end - sc._begin) / sc._spacing) - 1) if sc._spacing != 0 else 0
     return d
 
@@ -209,7 +213,7 @@ def _run_impl(case):
         parsed = [n.value for n in ln]
     except Exception as e:  # noqa: BLE001
         name = type(e).__name__
-        res["parse_err"] = name if name in ("ValueError", "ParsingError", "MalformedInputError") else "leak:" + name
+        res["parse_err"] = name if name in ("ValueError", "ParsingError", "MalformedInputError") else "raises:" + name
         return res
     res["parsed"] = [rat(v) for v in parsed]
     res["pnodes"] = [
@@ -227,23 +231,28 @@ def _run_impl(case):
             keep.append(node)
         return ids[id(node)]
 
-    for edits in case["rounds"]:
-        vals = apply_edits(list(ln), edits)
-        shortcuts = list(ln._shortcuts)
-        sidof = {id(s): k for k, s in enumerate(shortcuts)}
-        own = list(ln)
-        mcase = {"op": "update", "shortcuts": [ser_shortcut(s, k, idof) for k, s in enumerate(shortcuts)]}
-        ob = {"values": [rat(v.value) if v.value is not None else None for v in vals]}
+    def rebuild(vals):
+        """one update_with_new_values + format on the real list; everything the implementation raises is an observation"""
+        part = {}
+        try:
+            shortcuts = list(ln._shortcuts)
+            sidof = {id(s): k for k, s in enumerate(shortcuts)}
+            own = list(ln)
+            mcase = {"op": "update", "shortcuts": [ser_shortcut(s, k, idof) for k, s in enumerate(shortcuts)]}
+        except ImplRaised as e:
+            return {"err": "raises:" + e.name, "site": "state"}
         try:
             ln.update_with_new_values(vals)
         except Exception as e:  # noqa: BLE001
-            ob["err"] = "leak:" + type(e).__name__
-            ob["site"] = "consume"
-            res["rounds"].append(ob)
-            break
-        mcase["vals"] = [ser_leaf(v, idof) for v in vals]
-        mcase["own"] = [ser_leaf(v, idof) for v in own]
-        ob["items"] = [
+            _only_impl(e)
+            return {"err": "raises:" + type(e).__name__, "site": "consume"}
+        try:
+            mcase["vals"] = [ser_leaf(v, idof) for v in vals]
+            mcase["own"] = [ser_leaf(v, idof) for v in own]
+        except Exception as e:  # noqa: BLE001  ValueNode.format of a node raised
+            _only_impl(e)
+            return {"err": "raises:" + type(e).__name__, "site": "format"}
+        part["items"] = [
             {"sc": sidof.get(id(n), -1), "kind": KIND[n._type.value], "nodes": [idof(x) for x in n.nodes]}
             if isinstance(n, sn.ShortcutNode)
             else {"leaf": idof(n)}
@@ -256,31 +265,65 @@ def _run_impl(case):
             if isinstance(n, sn.ShortcutNode) and KIND[n._type.value] == "mul"
         }
         try:
-            ob["text"] = ln.format()
+            part["text"] = ln.format()
         except Exception as e:  # noqa: BLE001
-            ob["err"] = "leak:" + type(e).__name__
-            ob["site"] = "format"
-            res["rounds"].append(ob)
-            break
-        # standing check: rebuilding again from the same values and writing again gives the same text
-        ob["again_case"] = None
-        for n in ln.nodes:
-            if isinstance(n, sn.ShortcutNode) and KIND[n._type.value] == "mul" and id(n) in sidof:
-                c = numcopies[id(n)]
-                c.value = n._num_node.value  # the factor the real write computed
-                t = c.format().strip()
-                d = mcase["shortcuts"][sidof[id(n)]]
-                d["mulTxt"] = t
-                d["mulWritten"] = rat(ref.parse_number(t.strip())) if ref.parse_number(t.strip()) is not None else None
-        ob["model_case"] = mcase
+            _only_impl(e)
+            return dict(part, err="raises:" + type(e).__name__, site="format")
         try:
-            ln.update_with_new_values(vals)
-            ob["text2"] = ln.format()
+            for n in ln.nodes:
+                if isinstance(n, sn.ShortcutNode) and KIND[n._type.value] == "mul" and id(n) in sidof:
+                    c = numcopies[id(n)]
+                    c.value = n._num_node.value  # the factor the real write computed
+                    t = c.format().strip()
+                    d = mcase["shortcuts"][sidof[id(n)]]
+                    d["mulTxt"] = t
+                    d["mulWritten"] = rat(ref.parse_number(t)) if ref.parse_number(t) is not None else None
+            # observation is pure: formatting again gives the same bytes
+            part["text_again"] = ln.format()
         except Exception as e:  # noqa: BLE001
-            ob["text2"] = "raised " + type(e).__name__
-        ob.pop("again_case", None)
+            _only_impl(e)
+            return dict(part, err="raises:" + type(e).__name__, site="format-again")
+        part["model_case"] = mcase
+        return part
+
+    for edits in case["rounds"]:
+        try:
+            vals = apply_edits(list(ln), edits)
+        except Exception as e:  # noqa: BLE001
+            _only_impl(e)
+            res["rounds"].append({"values": [], "err": "raises:" + type(e).__name__, "site": "edit"})
+            break
+        ob = {"values": [rat(v.value) if v.value is not None else None for v in vals]}
+        ob.update(rebuild(vals))
+        if "err" not in ob:
+            # standing check: rebuilding again from the same values gives the same list and the same bytes
+            second = rebuild(vals)
+            ob["second"] = second
         res["rounds"].append(ob)
+        if "err" in ob or "err" in ob.get("second", {}):
+            break
     return res
+
+
+class ImplRaised(Exception):
+    """the state of an implementation object cannot even be read (e.g. 10**_begin overflows)"""
+
+    def __init__(self, name):
+        super().__init__(name)
+        self.name = name
+
+
+def _only_impl(e):
+    """an exception is an observation of the implementation only if it was raised inside MontePy (or by the
+    interpreter on MontePy's behalf); anything raised by the harness' own code is a machinery failure"""
+    import traceback
+
+    from vlib.core import REPO
+
+    frames = traceback.extract_tb(e.__traceback__)
+    if any(os.path.realpath(f.filename).startswith(os.path.realpath(REPO)) for f in frames):
+        return
+    raise e
 
 
 def tokens_of(text):
@@ -292,11 +335,11 @@ def tokens_of(text):
             return None
         kind, arg = pw
         if kind == "number":
-            toks.append(["num", rat(arg)])
+            toks.append(["num", rat(float(arg))])  # the double the lexer's fortran_float yields
         elif kind == "multiply":
             if not re.fullmatch(r"[+-]?\d+[mM]", w):
                 return None  # known finding C08-F1: not lexed as a shortcut
-            toks.append(["mul", rat(arg)])
+            toks.append(["mul", rat(float(arg))])
         else:
             if arg == 0:
                 return None  # count 0 is outside G (C08_expand_zero_count_refuted)
@@ -331,7 +374,10 @@ def parse_agrees(model_items, res):
                 if not ref.matches(("log", Fraction(*a), Fraction(*b), n, k), Fraction(*iv)):
                     return False
             elif not ref.close(Fraction(*mv), Fraction(*iv), Fraction(1, 10**12)):
-                return False
+                # an interpolate near 0: doubles vs exact rationals differ by ~1e-16 of the interpolation's scale
+                nums = [abs(Fraction(*x)) for x in mi["vals"] if isinstance(x, list)]
+                if not (mi["sc"] == "lin" and abs(Fraction(*mv) - Fraction(*iv)) <= Fraction(1, 10**12) * max(nums)):
+                    return False
     return True
 
 
@@ -340,20 +386,34 @@ def _floats(values):
     return [None if v is None else Fraction(v[0], v[1]) for v in values]
 
 
+def _held_kinds(ob):
+    return [sc["kind"] for sc in ob.get("model_case", {}).get("shortcuts", [])]
+
+
 def judge_round(ob):
     """The property on one write of the real code: (signature, detail) or None."""
     if "err" in ob:
         return ({"mechanism": "shortcut", "class": ob["err"], "kind": "list", "site": ob["site"]}, ob["err"])
     bad = ref.compare(ob["text"], _floats(ob["values"]))
-    if bad is None:
-        if "text2" in ob and ob["text2"].split() != ob["text"].split():
-            kinds = [pw[0] for w in (ob["text"] + " " + ob["text2"]).split() for pw in [ref.parse_word(w)] if pw and pw[0] != "number"]
-            held = [sc["kind"] for sc in ob.get("model_case", {}).get("shortcuts", [])]
-            kind = "multiply" if ("multiply" in kinds or "mul" in held) else (kinds[0] if kinds else "list")
-            return ({"mechanism": "shortcut", "class": "second-write-differs", "kind": kind, "site": "format"}, f"first {ob['text']!r}, again {ob['text2']!r}")
-        return None
-    cls, kind, detail = bad
-    return ({"mechanism": "shortcut", "class": cls, "kind": kind, "site": "format"}, f"{detail}; text {ob['text']!r}")
+    if bad is not None:
+        cls, kind, detail = bad
+        return ({"mechanism": "shortcut", "class": cls, "kind": kind, "site": "format"}, f"{detail}; text {ob['text']!r}")
+    kinds = [pw[0] for w in ob["text"].split() for pw in [ref.parse_word(w)] if pw and pw[0] != "number"]
+    kind = kinds[0] if kinds else "list"
+    if ob.get("text_again") != ob["text"]:
+        return ({"mechanism": "shortcut", "class": "observation-not-pure", "kind": kind, "site": "format-again"}, f"format() {ob['text']!r}, format() again {ob.get('text_again')!r}")
+    second = ob.get("second")
+    if second is not None:
+        if "err" in second:
+            return ({"mechanism": "shortcut", "class": second["err"], "kind": kind, "site": "second-" + second["site"]}, f"second rebuild from the same values: {second['err']}")
+        if second["text"] != ob["text"] or second.get("text_again") != second["text"]:
+            sig = {"mechanism": "shortcut", "class": "second-write-differs", "kind": kind, "site": "format"}
+            nums = sorted(v for v in _floats(ob["values"]) if v is not None)
+            # distinct values within rel_tol of each other: closeness is not transitive along such a chain
+            if any(0 < (w - v) <= Fraction(1, 10**9) * max(abs(v), abs(w)) for v, w in zip(nums, nums[1:])):
+                sig["tolerance_chain"] = True
+            return (sig, f"first {ob['text']!r}, again {second['text']!r}")
+    return None
 
 
 def judge_parse(case, res):
@@ -371,7 +431,7 @@ def judge_parse(case, res):
         fw = [w for w in case["text"].split() if ref.parse_word(w) and ref.parse_word(w)[0] == "multiply"][0]
         extra = {"factor": "integer" if re.fullmatch(r"[+-]?\d+[mM]", fw) else "non-integer"}
     if "parse_err" in res:
-        if res["parse_err"].startswith("leak:"):
+        if res["parse_err"].startswith("raises:"):
             return ({"mechanism": "shortcut", "class": res["parse_err"], "kind": first, "site": "parse"}, res["parse_err"])
         if ex is not None:
             return (dict({"mechanism": "shortcut", "class": "valid-list-rejected", "kind": first, "site": "parse"}, **extra), f"{case['text']!r} rejected: {res['parse_err']}")
@@ -507,6 +567,14 @@ CORPUS = [
     {"unit": "listnode", "text": "1 2i 4", "rounds": [[["set", 1, 2.5]]]},
     {"unit": "listnode", "text": "1 2i 4 3m", "rounds": [[["set", 3, 5.0]]]},
     {"unit": "listnode", "text": "1 2i 4 2 2 r", "rounds": [[["set", 2, 2.0], ["set", 3, 2.0]]]},
+    # an interpolate that should be 0 (oracle false alarm of round 6: judged on the scale of the interpolation)
+    {"unit": "listnode", "text": "-2 3i 1.9999999999999998", "rounds": [[]]},
+    {"unit": "listnode", "text": "-2 -1 0 1 1.9999999999999998 4 5m", "rounds": [[["copyall"]], [["set", 5, 4.0]]]},
+    # rebuilt twice (fixes 9bda70f, 5d77013, d7a689d)
+    {"unit": "listnode", "text": "2.0 1.0 1.0 50.0 0.02m 4 1.0", "rounds": [[["copyall"]], [["copyall"]]]},
+    {"unit": "listnode", "text": "1.0 2m 2i 5. 0", "rounds": [[["copyall"]]]},
+    {"unit": "listnode", "text": "0 i 10 5m", "rounds": [[["set", 0, 4.0]]]},
+    {"unit": "listnode", "text": "2 r J", "rounds": [[["set", 2, 2.0]]]},
     # the list handed in as copies of its own nodes (fix 70989d6)
     {"unit": "listnode", "text": "0.5 1.0 2r 4 1.0 1.0", "rounds": [[["copyall"]]]},
     {"unit": "listnode", "text": "0.5 1.0 2r 4 1.0 1.0", "rounds": [[["copyall"], ["set", 2, 5.0]]]},
@@ -711,13 +779,15 @@ def _run_card(case):
             out = os.path.join(d, "out.imcnp")
             prob.write_to_file(out)
         except Exception as e:  # noqa: BLE001
-            ob["err"] = "leak:" + type(e).__name__ if not isinstance(e, (montepy.errors.IllegalState, ValueError, TypeError)) or isinstance(e, ZeroDivisionError) else "refused:" + type(e).__name__
+            ob["err"] = "raises:" + type(e).__name__ if not isinstance(e, (montepy.errors.IllegalState, ValueError, TypeError)) or isinstance(e, (ZeroDivisionError, OverflowError)) else "refused:" + type(e).__name__
             ob["site"] = "format"
             return ob
         ob["text"] = _read_card(out, CARD[kind])
         # standing check: a second write of the same problem gives the same bytes
         out2 = os.path.join(d, "out2.imcnp")
         try:
+            for di in prob.data_inputs:  # an observation in between must not change the next write
+                di.format_for_mcnp_input((6, 2, 0))
             prob.write_to_file(out2)
             with open(out, "rb") as f1, open(out2, "rb") as f2:
                 ob["second_same"] = f1.read() == f2.read()
@@ -745,7 +815,7 @@ def judge_card(case, ob):
     if "read_err" in ob:
         if ref.expand(" ".join(case["words"])) is not None:
             deliberate = ob["read_err"] in ("MalformedInputError", "ParsingError", "ValueError", "IllegalState", "UnsupportedFeature")
-            cls = "valid-list-rejected" if deliberate else "leak:" + ob["read_err"]
+            cls = "valid-list-rejected" if deliberate else "raises:" + ob["read_err"]
             if ob["read_err"].startswith("values:"):
                 cls = "expand-wrong"  # the card was accepted but the object holds something that is not a number
             return (dict(kind_sig, **{"class": cls, "kind": first, "site": "parse", "parser": "DataParser"}), f"{case['words']} rejected: {ob['read_err']}")
@@ -762,7 +832,7 @@ def judge_card(case, ob):
     if "edit_err" in ob:
         return None
     if "err" in ob:
-        if ob["err"].startswith("leak:"):
+        if ob["err"].startswith("raises:"):
             return (dict(kind_sig, **{"class": ob["err"], "kind": "list", "site": ob["site"]}), ob["err"])
         return None
     if ob.get("text") is None:
@@ -799,6 +869,9 @@ def _model_results(drv, impl):
             if "text" in ob:
                 batch.append({"op": "spec", "text": ob["text"], "vals": ob["values"]})
                 where.append((ci, k, "spec"))
+            if "model_case" in ob.get("second", {}):
+                batch.append(ob["second"]["model_case"])
+                where.append((ci, k, "model2"))
     out = drv.batch(batch, timeout=3600) if batch else []
     table = {}
     if out is not None:
@@ -866,6 +939,25 @@ def check_listnode_case(chk, drv, case, ri, table, ci, confirm=True):
                 return True
             chk.violation(sig, detail, {"case": mc, "impl": _strip(r2)})
             return True
+        m2nd = table.get((ci, k, "model2"))
+        if m2nd is not None and "error" not in m2nd and v is None:
+            sec = ob["second"]
+            chk.traces_validated += 1
+            if (m2nd["items"] != sec["items"] or m2nd["text"] != sec["text"]) and not _in_isclose_band(sec["model_case"]):
+                chk.disagreements_checked += 1
+                r2 = run_impl(case)
+                sec2 = (r2["rounds"][k] if k < len(r2.get("rounds", [])) else {}).get("second", {})
+                if "model_case" in sec2:
+                    mm = drv.batch([sec2["model_case"]])[0]
+                    if mm["items"] != sec2["items"] or mm["text"] != sec2["text"]:
+                        chk.broken_obligation(
+                            "correspondence",
+                            "U-listnode, second rebuild from the same values",
+                            {"impl": {"items": sec2["items"], "text": sec2["text"]}, "model": {"items": mm["items"], "text": mm["text"]}, "round": k},
+                            case,
+                        )
+                        return True
+                chk.count("flaky:correspondence2")
         m = table.get((ci, k, "model"))
         if m is not None:
             chk.traces_validated += 1
@@ -884,7 +976,7 @@ def check_listnode_case(chk, drv, case, ri, table, ci, confirm=True):
                     chk.count("flaky:correspondence")
                     return True
                 if _in_isclose_band(ob2["model_case"]):
-                    chk.count("band:multiply-threshold (not compared)")
+                    chk.count("band:isclose-threshold (not compared)")
                     return True
                 chk.broken_obligation(
                     "correspondence",
@@ -904,6 +996,12 @@ def _in_isclose_band(mcase):
     """a multiply validation `isclose(base * written, product)` of this case sits within 1e-12 of the threshold:
     exact rationals (model) and doubles (code) may then decide differently (DESIGN 1.3); such a case is not compared"""
     vals = [None if v["val"] is None else Fraction(*v["val"]) for v in mcase.get("vals", [])]
+    nums = [abs(v) for v in vals if v is not None]
+    if nums and any(sc["kind"] in ("lin", "log") for sc in mcase.get("shortcuts", [])):
+        # isclose has no absolute tolerance: next to an interpolation, a value that is (almost) 0 on the scale of
+        # the list is decided by the last bit of the double computation (exact rationals give -1e-16, doubles 0.0)
+        if any(v <= Fraction(1, 10**12) * max(nums) for v in nums):
+            return True
     for sc in mcase.get("shortcuts", []):
         if sc["kind"] != "mul" or sc.get("mulWritten") is None:
             continue
@@ -924,6 +1022,7 @@ def _strip(ri):
     r = json.loads(json.dumps(ri))
     for ob in r.get("rounds", []):
         ob.pop("model_case", None)
+        ob.get("second", {}).pop("model_case", None)
     return r
 
 
